@@ -223,6 +223,19 @@ pub struct F27 {
     pub t: i64,
 }
 
+/// bool / char / float in attribute, element, element-list and text position
+#[derive(Debug, Clone, PartialEq, Serialize, Deserialize)]
+pub struct F28 {
+    #[serde(rename = "@flag")]
+    pub flag_attr: bool,
+    #[serde(rename = "@ratio")]
+    pub ratio: f64,
+    pub ch: char,
+    #[serde(default)]
+    pub flag: Vec<bool>,
+    pub r: f64,
+}
+
 // ---- outside the round-trippable domain (C13 / C07 only)
 #[derive(Debug, Clone, PartialEq, Serialize, Deserialize)]
 pub struct H01 {
@@ -256,7 +269,7 @@ pub struct H06 {
     pub a: Hostile,
 }
 
-pub const TYPES: &[&str] = &["F01", "F02", "F03", "F04", "F05", "F07", "F08", "F11", "F15", "F16", "F17", "F18", "F19", "F20", "F22", "F23", "F24", "F25", "F26", "F27", "H01", "H02", "H05", "H06"];
+pub const TYPES: &[&str] = &["F01", "F02", "F03", "F04", "F05", "F07", "F08", "F11", "F15", "F16", "F17", "F18", "F19", "F20", "F22", "F23", "F24", "F25", "F26", "F27", "F28", "H01", "H02", "H05", "H06"];
 
 /// Apply `$body` with `T` bound to the family type named `$name`.
 #[macro_export]
@@ -283,6 +296,7 @@ macro_rules! with_type {
             "F25" => { type $T = $crate::family::F25; $body }
             "F26" => { type $T = $crate::family::F26; $body }
             "F27" => { type $T = $crate::family::F27; $body }
+            "F28" => { type $T = $crate::family::F28; $body }
             "H01" => { type $T = $crate::family::H01; $body }
             "H02" => { type $T = $crate::family::H02; $body }
             "H05" => { type $T = $crate::family::H05; $body }
